@@ -222,9 +222,10 @@ def r3(ctx: Ctx) -> None:
 def r4(ctx: Ctx) -> None:
     f = ctx.func("Market._execute_orders")
     now = ("attr", ("sym", "self"), "time")
-    for p in normal_paths(ctx.paths(f.qualname)):
+
+    def increments(events) -> Dict[str, str]:
         got: Dict[str, str] = {}
-        for e in p.events:
+        for e in events:
             if e.kind == "store" and e.attr is None and e.base[0] == "attr" and e.base[2] in ("_executed_volumes", "_executed_total_prices"):
                 v = e.value
                 delta = None
@@ -233,9 +234,35 @@ def r4(ctx: Ctx) -> None:
                 elif v[0] == "bin" and v[1] == "+" and v[3] == e.cur:
                     delta = v[2]
                 d = diff_const(strip_ver(e.index), now)
-                got[e.base[2]] = (poly_of(delta) if delta is not None else "not an increment of the slot: " + short(v)) + ("" if d == 0 else " @wrong slot")
-        want = {"_executed_volumes": poly_of(("sym", "volume")), "_executed_total_prices": poly_of(("bin", "*", ("sym", "volume"), ("sym", "price")))}
-        ctx.check(got == want, f, f.node, "fill counters", str(want), str(got))
+                got[e.base[2]] = (poly_of(strip_ver(delta)) if delta is not None else "not an increment of the slot: " + short(v)) + ("" if d == 0 else " @wrong slot")
+        return got
+
+    per_fill = [increments(p.events) for p in normal_paths(ctx.paths(f.qualname))]
+    want = {"_executed_volumes": poly_of(("sym", "volume")), "_executed_total_prices": poly_of(("bin", "*", ("sym", "volume"), ("sym", "price")))}
+    # alternatively the round adds up its own fills once: for log in <the fills>: += log.volume, += log.volume * log.price
+    g = ctx.func("Market._execution")
+    per_round = []
+    for p in normal_paths(ctx.paths(g.qualname)):
+        made = [e for e in p.walk_events(True) if e.kind == "call" and calls_target(e, "Market._execute_orders")]
+        if not made:
+            continue
+        for l in [x for x in p.events if x.kind == "loop" and x.loopkind == "for" and x.target]:
+            el = ("sym", f"{l.target[0]}∈{l.loopid}")
+            for bp in l.paths:
+                inc = increments(bp.events)
+                if inc:
+                    w2 = {"_executed_volumes": poly_of(("attr", el, "volume")), "_executed_total_prices": poly_of(("bin", "*", ("attr", el, "volume"), ("attr", el, "price")))}
+                    fills = p.exit[1] if p.exit[0] == "return" else None
+                    per_round.append((inc == w2 and not bp.conds and bp.exit[0] == "fall" and l.iter is not None and fills is not None and strip_ver(l.iter) == strip_ver(fills), inc, l))
+        top = increments(p.events)
+        if top:
+            per_round.append((False, top, None))
+    if per_round and not any(per_fill):
+        for ok, inc, l in per_round:
+            ctx.check(ok, g, l.node if l is not None else g.node, "fill counters: the round adds every one of its fills once", "for log in <fills of this round>: volumes[now] += log.volume; totals[now] += log.volume * log.price", str(inc))
+    else:
+        for got in per_fill:
+            ctx.check(got == want and not per_round, f, f.node, "fill counters", str(want), str(got) + (" and again per round" if per_round else ""))
     f = ctx.func("Market._add_order")
     n = 0
     for p in normal_paths(ctx.paths(f.qualname)):
